@@ -176,17 +176,25 @@ def find_countermodel(S, premises, conclusion, *, max_worlds=2, extra_consts=1, 
         gps = ground_predications(sentences, S, dom) if preds else []
         if S.classical:
             gps = [g for g in gps if g[0] not in (syn.IDENTITY, syn.EXISTENCE)]
-        parts_list = list(partitions(dom)) if uses_identity else [{c: c for c in dom}]
+        parts_one = list(partitions(dom)) if uses_identity else [{c: c for c in dom}]
         for ws, R in world_sets:
+            # identity is evaluated world by world (each frame has its own extension): one partition per world, as long
+            # as that stays small; otherwise the same partition everywhere (a subset of the interpretations)
+            if uses_identity and len(ws) > 1 and len(parts_one) ** len(ws) <= 64:
+                parts_list = [dict(zip(ws, combo)) for combo in product(parts_one, repeat=len(ws))]
+            else:
+                if uses_identity and len(ws) > 1:
+                    complete = False
+                parts_list = [{w: p_ for w in ws} for p_ in parts_one]
             for part in parts_list:
                 # independent slots
                 if uses_identity:
-                    gp_slots = sorted({(p, tuple(part.get(x, x) for x in ps)) for p, ps in gps})
+                    gp_slots_w = {w: sorted({(p, tuple(part[w].get(x, x) for x in ps)) for p, ps in gps}) for w in ws}
                 else:
-                    gp_slots = gps
+                    gp_slots_w = {w: gps for w in ws}
                 slots = [('A', w, a) for w in ws for a in atoms] + \
                         [('O', w, o) for w in ws for o in opaques] + \
-                        [('P', w, g) for w in ws for g in gp_slots]
+                        [('P', w, g) for w in ws for g in gp_slots_w[w]]
                 space = len(V) ** len(slots)
                 total_space += space
                 if space <= limit:
@@ -228,17 +236,17 @@ def _build(S, ws, R, dom, part, slots, vals, gps, uses_identity):
             preds[(w, x[0], x[1])] = v
     if S.classical:
         if uses_identity:
-            # extend predicate values along the identity classes
+            # extend predicate values along the identity classes (of each world)
             for w in ws:
                 for p, ps in gps:
-                    rep = tuple(part.get(x, x) for x in ps)
+                    rep = tuple(part[w].get(x, x) for x in ps)
                     if (w, p, rep) in preds:
                         preds[(w, p, ps)] = preds[(w, p, rep)]
         for w in ws:
             for c1 in dom:
                 preds[(w, syn.EXISTENCE, (c1,))] = 'T'
                 for c2 in dom:
-                    same = (part.get(c1, c1) == part.get(c2, c2)) if uses_identity else (c1 == c2)
+                    same = (part[w].get(c1, c1) == part[w].get(c2, c2)) if uses_identity else (c1 == c2)
                     preds[(w, syn.IDENTITY, (c1, c2))] = 'T' if same else 'F'
     return Interp(S, worlds=ws, R=R, domain=dom, atoms=atoms, preds=preds, opaques=opq)
 
